@@ -253,7 +253,7 @@ func NewUniverse(t *rapid.T, o Opts) *Universe {
 			nl = 0
 		}
 		for j := 0; j < nl; j++ {
-			ln := Line{Fn: rapid.IntRange(0, len(u.Funcs)-1).Draw(t, "fn"), Line: rapid.Int64Range(0, 99).Draw(t, "line")}
+			ln := Line{Fn: rapid.IntRange(0, len(u.Funcs)-1).Draw(t, "fn"), Line: rapid.OneOf(rapid.SampledFrom([]int64{0, 0, 7, 7, 1}), rapid.Int64Range(0, 99)).Draw(t, "line")}
 			if o.Columns {
 				ln.Column = rapid.Int64Range(0, 9).Draw(t, "col")
 			}
@@ -274,7 +274,7 @@ func NewUniverse(t *rapid.T, o Opts) *Universe {
 			src := u.Frames[rapid.IntRange(0, len(u.Frames)-1).Draw(t, "dupfridx")]
 			fr := src
 			fr.Lines = append([]Line{}, src.Lines...)
-			k := rapid.IntRange(0, 6).Draw(t, "frattr")
+			k := rapid.IntRange(0, 7).Draw(t, "frattr")
 			li := 0
 			if len(fr.Lines) > 0 {
 				li = rapid.IntRange(0, len(fr.Lines)-1).Draw(t, "depth")
@@ -292,6 +292,8 @@ func NewUniverse(t *rapid.T, o Opts) *Universe {
 				fr.Lines[li].Fn = (fr.Lines[li].Fn + 1) % len(u.Funcs)
 			case k == 5 && len(fr.Lines) > 1:
 				fr.Lines = fr.Lines[:len(fr.Lines)-1]
+			case k == 7 && len(fr.Lines) > 0 && fr.Lines[li].Line != 0:
+				fr.Lines[li].Line = 0 // same function once with and once without line information
 			case k == 6:
 				fr.Bin = (fr.Bin+2)%(len(u.Bins)+1) - 1
 				if fr.Bin >= 0 && fr.RelAddr >= u.Bins[fr.Bin].Size {
